@@ -419,4 +419,76 @@ def T_argtemp(src):
     return _apply(src, _ArgTemp)
 
 
-ALL = {"log-lines": T_log, "unused-local": T_nooplocal, "add-docstrings": T_docstring, "mirror-comparisons": T_mirror, "pass": T_pass, "const-swap": T_const, "if-not": T_ifnot, "return-temp": T_rettmp, "kwargs-order": T_kwargs, "rename-locals": T_rename, "augassign-expanded": T_augexpand, "elif-as-nested-if": T_elifnest, "in-tuple-vs-list": T_tuplelist, "ternary-as-if": T_ternary, "else-after-exit": T_elseafterexit, "argument-temp": T_argtemp}
+class _SwapIndependent(ast.NodeTransformer):
+    """a = e1; b = e2  ->  b = e2; a = e1   for adjacent assignments to two different plain names whose right-hand sides are call-free
+    expressions that mention neither target (nothing can observe the order)"""
+    n = 0
+
+    @staticmethod
+    def _simple(st):
+        return (isinstance(st, ast.Assign) and len(st.targets) == 1 and isinstance(st.targets[0], ast.Name)
+                and not any(isinstance(x, (ast.Call, ast.Await, ast.Yield, ast.YieldFrom, ast.NamedExpr, ast.Lambda, ast.Subscript)) for x in ast.walk(st.value)))
+
+    def _block(self, body):
+        out, i = [], 0
+        while i < len(body):
+            a = body[i]
+            b = body[i + 1] if i + 1 < len(body) else None
+            if b is not None and self._simple(a) and self._simple(b):
+                ta, tb = a.targets[0].id, b.targets[0].id
+                names_a = {x.id for x in ast.walk(a.value) if isinstance(x, ast.Name)}
+                names_b = {x.id for x in ast.walk(b.value) if isinstance(x, ast.Name)}
+                if ta != tb and ta not in names_b and tb not in names_a:
+                    out.extend([b, a])
+                    self.n += 1
+                    i += 2
+                    continue
+            out.append(a)
+            i += 1
+        return out
+
+    def generic_visit(self, node):
+        super().generic_visit(node)
+        for f in ("body", "orelse", "finalbody"):
+            blk = getattr(node, f, None)
+            if isinstance(blk, list) and blk and isinstance(blk[0], ast.stmt) and not isinstance(node, (ast.Module, ast.ClassDef)):
+                setattr(node, f, self._block(blk))
+        return node
+
+
+def T_swapindependent(src):
+    return _apply(src, _SwapIndependent)
+
+
+class _CondTemp(ast.NodeTransformer):
+    """if <compound test>: ...   ->   _vp_c = <compound test>; if _vp_c: ...     (statement-level `if` whose test is a comparison or a
+    boolean operation; elif branches are left alone: their tests must stay lazy)"""
+    n = 0
+
+    def _block(self, body):
+        out = []
+        for st in body:
+            if isinstance(st, ast.If) and isinstance(st.test, (ast.Compare, ast.BoolOp)) and not any(isinstance(x, (ast.NamedExpr, ast.Yield, ast.Await)) for x in ast.walk(st.test)):
+                self.n += 1
+                tmp = f"_vp_c{self.n}"
+                out.append(ast.copy_location(ast.Assign(targets=[ast.Name(id=tmp, ctx=ast.Store())], value=st.test), st))
+                st.test = ast.Name(id=tmp, ctx=ast.Load())
+            out.append(st)
+        return out
+
+    def generic_visit(self, node):
+        super().generic_visit(node)
+        for f in ("body", "orelse", "finalbody"):
+            blk = getattr(node, f, None)
+            if isinstance(blk, list) and blk and isinstance(blk[0], ast.stmt) and not isinstance(node, (ast.Module, ast.ClassDef)):
+                if isinstance(node, ast.If) and f == "orelse" and len(blk) == 1 and isinstance(blk[0], ast.If):
+                    continue
+                setattr(node, f, self._block(blk))
+        return node
+
+
+def T_condtemp(src):
+    return _apply(src, _CondTemp)
+
+
+ALL = {"log-lines": T_log, "unused-local": T_nooplocal, "add-docstrings": T_docstring, "mirror-comparisons": T_mirror, "pass": T_pass, "const-swap": T_const, "if-not": T_ifnot, "return-temp": T_rettmp, "kwargs-order": T_kwargs, "rename-locals": T_rename, "augassign-expanded": T_augexpand, "elif-as-nested-if": T_elifnest, "in-tuple-vs-list": T_tuplelist, "ternary-as-if": T_ternary, "else-after-exit": T_elseafterexit, "argument-temp": T_argtemp, "swap-independent-assignments": T_swapindependent, "condition-temp": T_condtemp}
